@@ -87,7 +87,10 @@ impl<T> RawFixedBumpVec<T> {
             let new_ptr = allocation.cast::<T>();
             let new_cap = allocation.len();
 
-            ptr::copy_nonoverlapping(self.as_ptr(), new_ptr.as_ptr(), self.len());
+            // The new allocation can overlap the old one: after `map_in_place` to a smaller element type or
+            // `into_flattened` the capacity no longer covers the rest of the chunk, so a bigger range may
+            // be prepared in the same chunk.
+            ptr::copy(self.as_ptr(), new_ptr.as_ptr(), self.len());
 
             self.initialized.set_ptr(new_ptr);
             self.capacity = new_cap;
